@@ -39,6 +39,8 @@ Eval1(cx, v) ==
    hg   |-> CASE v.hk = "v4"  -> cx.ts[v.hp[1]].v4
               [] v.hk = "v6"  -> V6Val(cx, v.hp[1], v.hp[2])
               [] v.hk = "svc" -> <<cx.ts[v.hp[1]].svc>>
+              [] v.hk = "if1" -> <<cx.ts[v.hp[1]].d16>>
+              [] v.hk = "if2" -> <<cx.ts[v.hp[1]].d16, cx.ts[v.hp[2]].d16>>
               [] OTHER        -> <<>>,
    port |-> IF v.port = <<>> THEN <<>> ELSE <<cx.ts[v.port[1]].d16>>,
    list |-> <<>>]
